@@ -25,6 +25,7 @@ struct Plan
   int dim = 2;
   int n[3] = {1, 1, 1};
   bool prefill = true;
+  int cellType = 0;   // 0 int64_t, 1 uint8_t (a one-byte cell), 2 std::string (a cell type with real move semantics)
   std::vector<Op> ops;
 };
 
@@ -60,10 +61,24 @@ struct Model
   }
 };
 
-template<size_t DIM>
+// model tags (int64) are encoded into the grid's cell type; tag 0 is the default-constructed value T()
+template<class T> struct Enc;
+template<> struct Enc<int64_t> {static int64_t of(int64_t t) {return t;} static uint64_t h(int64_t v) {return (uint64_t)v;}};
+template<> struct Enc<uint8_t>
+{
+  static uint8_t of(int64_t t) {return t == 0 ? 0 : (uint8_t)(sim::mix64((uint64_t)t, 77) % 255 + 1);}
+  static uint64_t h(uint8_t v) {return v;}
+};
+template<> struct Enc<std::string>
+{
+  static std::string of(int64_t t) {return t == 0 ? std::string() : "cell value number " + std::to_string(t);}   // longer than the small-string buffer
+  static uint64_t h(const std::string & v) {return sim::hashStr(v);}
+};
+
+template<size_t DIM, class T = int64_t>
 Outcome runGrid(const Plan & p, Ctx & c)
 {
-  using Grid = romea::core::WrappableGrid<int64_t, DIM>;
+  using Grid = romea::core::WrappableGrid<T, DIM>;
   using CI = typename Grid::CellIndexes;
   using CO = typename Grid::CellIndexesOffset;
   CI nn;
@@ -82,13 +97,13 @@ Outcome runGrid(const Plan & p, Ctx & c)
           for (int x = 0; x < m.n[0]; ++x) {
             // alternate between the const and the non-const accessor
             const Grid & cgrid = grid;
-            int64_t got = ((x + y + z + (int)opNo) & 1) ? cgrid(idx(x, y, z)) : grid(idx(x, y, z));
-            c.log((uint64_t)got);
+            T got = ((x + y + z + (int)opNo) & 1) ? cgrid(idx(x, y, z)) : grid(idx(x, y, z));
+            c.log(Enc<T>::h(got));
             int64_t want = m.at(x, y, z);
-            if (want != kPristine && got != want) {
-              return Outcome::fail("cell-mismatch", fmt("after op #%zu (%s) cell (%d,%d,%d) reads "
-                       "%lld, the sliding-window model says %lld", opNo, after, x, y, z,
-                       (long long)got, (long long)want));
+            if (want != kPristine && !(got == Enc<T>::of(want))) {
+              return Outcome::fail("cell-mismatch", fmt("after op #%zu (%s) cell (%d,%d,%d) does not read the value the sliding-window "
+                       "model says (model tag %lld, read value hash %llx)", opNo, after, x, y, z,
+                       (long long)want, (unsigned long long)Enc<T>::h(got)));
             }
           }
         }
@@ -109,7 +124,7 @@ Outcome runGrid(const Plan & p, Ctx & c)
     int64_t tag = 1;
     for (int z = 0; z < m.n[2]; ++z) {
       for (int y = 0; y < m.n[1]; ++y) {
-        for (int x = 0; x < m.n[0]; ++x) {grid(idx(x, y, z)) = tag; m.at(x, y, z) = tag; ++tag;}
+        for (int x = 0; x < m.n[0]; ++x) {grid(idx(x, y, z)) = Enc<T>::of(tag); m.at(x, y, z) = tag; ++tag;}
       }
     }
   }
@@ -120,7 +135,7 @@ Outcome runGrid(const Plan & p, Ctx & c)
     ++c.steps;
     if (op.kind == 0) {
       int x = op.a[0] % m.n[0], y = op.a[1] % m.n[1], z = DIM == 3 ? op.a[2] % m.n[2] : 0;
-      grid(idx(x, y, z)) = op.value; m.at(x, y, z) = op.value;
+      grid(idx(x, y, z)) = Enc<T>::of(op.value); m.at(x, y, z) = op.value;
       SIM_COUNT("op.write");
       if (translations) {SIM_PROBE("write_after_translate");}
       if (c.record) {c.note(fmt("#%zu write (%d,%d,%d) := %lld", k + 1, x, y, z, (long long)op.value));}
@@ -130,7 +145,7 @@ Outcome runGrid(const Plan & p, Ctx & c)
       if (c.record) {c.note(fmt("#%zu continue on a copy", k + 1));}
       Outcome o = observe("copy", k + 1); if (!o.ok) {return o;}
     } else if (op.kind == 2) {
-      grid.setValue(op.value); std::fill(m.cell.begin(), m.cell.end(), op.value);
+      grid.setValue(Enc<T>::of(op.value)); std::fill(m.cell.begin(), m.cell.end(), op.value);
       SIM_COUNT("op.setValue");
       if (translations) {SIM_PROBE("set_value_after_translate");}
       if (c.record) {c.note(fmt("#%zu setValue(%lld)", k + 1, (long long)op.value));}
@@ -151,7 +166,7 @@ Outcome runGrid(const Plan & p, Ctx & c)
       if (DIM == 3 && op.a[2] < 0 && -op.a[2] < m.n[2]) {SIM_PROBE("negative_z_with_survivors");}
       if (!any) {SIM_PROBE("zero_translation");}
       if (op.kind == 3) {grid.translate(d); m.translate(op.a, 0); SIM_PROBE("translate_with_default_empty_value");} else {
-        grid.translate(d, op.value); m.translate(op.a, op.value);
+        grid.translate(d, Enc<T>::of(op.value)); m.translate(op.a, op.value);
       }
       if (any) {++translations;}
       for (size_t a = 0; a < DIM; ++a) {if (m.off[a]) {wrapped = true;}}
@@ -280,6 +295,7 @@ struct PropC15
     int maxN = (int)r.range(1, 8);
     for (int a = 0; a < 3; ++a) {p.n[a] = a < p.dim ? (int)r.range(1, maxN) : 1;}
     p.prefill = r.chance(0.8);
+    p.cellType = r.chance(0.4) ? (int)r.range(1, 2) : 0;
     int len = (int)r.range(1, r.chance(0.2) ? 50 : 12);
     double pWrite = r.pick({0.0, 0.2, 0.5, 0.7});
     int offsetStyle = (int)r.below(4);  // 0 small, 1 up to n, 2 up to 2n, 3 mixed
@@ -346,6 +362,8 @@ struct PropC15
 
   Outcome execute(const Plan & p, Ctx & c) const
   {
+    if (p.cellType == 1) {SIM_PROBE("one_byte_cell_type"); return p.dim == 2 ? runGrid<2, uint8_t>(p, c) : runGrid<3, uint8_t>(p, c);}
+    if (p.cellType == 2) {SIM_PROBE("string_cell_type"); return p.dim == 2 ? runGrid<2, std::string>(p, c) : runGrid<3, std::string>(p, c);}
     return p.dim == 2 ? runGrid<2>(p, c) : runGrid<3>(p, c);
   }
 
@@ -354,7 +372,7 @@ struct PropC15
     Json j = Json::object();
     j.set("dim", p.dim);
     Json n = Json::array(); for (int a = 0; a < p.dim; ++a) {n.push(p.n[a]);}
-    j.set("cells_per_axis", n).set("prefill_distinct_tags", p.prefill);
+    j.set("cells_per_axis", n).set("prefill_distinct_tags", p.prefill).set("cell_type", p.cellType == 0 ? "int64_t" : (p.cellType == 1 ? "uint8_t" : "std::string")).set("cell_type_id", p.cellType);
     Json ops = Json::array();
     for (auto & o : p.ops) {
       Json e = Json::object();
@@ -373,7 +391,7 @@ struct PropC15
   {
     Plan p; p.dim = (int)j["dim"].i();
     for (int a = 0; a < p.dim; ++a) {p.n[a] = (int)j["cells_per_axis"][a].i();}
-    p.prefill = j["prefill_distinct_tags"].b();
+    p.prefill = j["prefill_distinct_tags"].b(); p.cellType = j.has("cell_type_id") ? (int)j["cell_type_id"].i() : 0;
     for (auto & e : j["ops"].a()) {
       Op o; o.a[0] = o.a[1] = o.a[2] = 0;
       if (e["op"].s() == "write") {
@@ -398,6 +416,7 @@ struct PropC15
     for (int a = 0; a < p.dim; ++a) {
       if (p.n[a] > 1) {Plan q = p; q.n[a] = p.n[a] - 1; out.push_back(q);}
     }
+    if (p.cellType != 0) {Plan q = p; q.cellType = 0; out.push_back(q);}
     for (size_t k = 0; k < p.ops.size(); ++k) {
       if (p.ops[k].kind != 1 && p.ops[k].kind != 3) {continue;}
       for (int a = 0; a < p.dim; ++a) {
@@ -415,7 +434,7 @@ struct PropC15
   uint64_t shapeHash(const Plan & p) const
   {
     uint64_t h = mix64((uint64_t)p.dim, (uint64_t)(p.n[0] * 100 + p.n[1] * 10 + p.n[2]));
-    h = mix64(h, p.prefill);
+    h = mix64(h, (uint64_t)p.prefill + 2 * (uint64_t)p.cellType);
     for (auto & o : p.ops) {
       h = mix64(h, (uint64_t)(o.kind * 1000003 + (o.a[0] + 50) * 10201 + (o.a[1] + 50) * 101 +
         (o.a[2] + 50)));
@@ -429,7 +448,7 @@ struct PropC15
   }
   std::string signature(const Plan & p, const Outcome & o) const
   {
-    std::string s = o.cls + "|" + std::to_string(p.dim) + "D|";
+    std::string s = o.cls + "|" + std::to_string(p.dim) + "D" + (p.cellType == 1 ? "/byte" : (p.cellType == 2 ? "/string" : "")) + "|";
     for (auto & op : p.ops) {
       if (op.kind == 0) {s += "W";} else if (op.kind == 2) {s += "F";} else if (op.kind == 4) {s += "C";} else {
         s += "T(";
@@ -450,7 +469,7 @@ struct PropC15
   std::vector<std::string> probeNames() const
   {
     return {"write_after_translate", "second_or_later_translation", "translate_by_at_least_grid_size",
-      "negative_offset_after_previous_wrap", "negative_z_with_survivors", "zero_translation", "set_value_after_translate", "translate_with_default_empty_value", "copy_after_translate"};
+      "negative_offset_after_previous_wrap", "negative_z_with_survivors", "zero_translation", "set_value_after_translate", "translate_with_default_empty_value", "copy_after_translate", "one_byte_cell_type", "string_cell_type"};
   }
   Json describe() const
   {
@@ -476,7 +495,7 @@ struct PropC15
     d.set("exhaustive", false);
     d.set("exhaustive_subspaces", ex);
     Json comp = Json::object();
-    comp.set("real_code", "romea::core::WrappableGrid<int64_t,2|3> and Grid (headers from the repository, g++ -O2, asserts on)");
+    comp.set("real_code", "romea::core::WrappableGrid<int64_t | uint8_t | std::string, 2|3> and Grid (headers from the repository, g++ -O2, asserts on)");
     comp.set("stubs", "none; the reference model is a dense array (new[i] = old[i+d] or empty)");
     comp.set("scheduler", "not used (single owner)").set("clock", "not used").set("faults",
       "none exist for this property; translations are the only state-changing events");
@@ -484,7 +503,7 @@ struct PropC15
     Json as = Json::array();
     as.push("orientation of a translation fixed by the repository's own tests: after translate(+1,-1) logical (0,1) holds what was at (1,0)");
     as.push("cells never written nor blanked (pristine) are not compared; all sweeps start from a grid prefilled with distinct tags");
-    as.push("value type int64; the grid template is value-agnostic");
+    as.push("cell types: int64_t in the bounded sweeps; int64_t, uint8_t (one-byte cells) and std::string (cells with real move semantics) in the random histories; one-byte values are a hash of the model tag, so two different tags collide with probability 1/255");
     d.set("assumptions", as);
     return d;
   }
